@@ -277,6 +277,10 @@ def gen_world(rng, ntorrents=None, allow_shared=True, empties=False, export_heav
                 w.put_file(tgt, f.content[:rng.randrange(f.length)])
             elif st == "exact-correct":
                 w.put_file(tgt, f.content)
+                if rng.random() < 0.35:
+                    # the finished export file is also hard-linked into a scan directory (a client / library folder)
+                    for _ in range(rng.choice([1, 1, 2, 4])):
+                        w.put_link(fresh_under(rng.choice(scan_roots), leaf), tgt)
             elif st == "exact-partly" and f.length:
                 w.put_file(tgt, corrupt(rng, f.content, rng.choice(["tail", "head", "flip"])))
             elif st == "exact-wrong" and f.length:
